@@ -609,6 +609,72 @@ def wset_inst(hist, dl, cm):
     inst.functional_only = True
     return inst
 
+def opt_inst(items):
+    """items: list of option item strings"""
+    join = py = 0; parse = []; conf = []; root = None; unknown = False
+    for it in items:
+        if it == "JOIN_SAME_ENTRIES=1": join = 1
+        elif it == "PYTHON_STYLE=1": py = 1
+        elif it.startswith("PARSING_DIRS="): parse = it[len("PARSING_DIRS="):].split(":")
+        elif it.startswith("CONFIG_DIRS="): conf = it[len("CONFIG_DIRS="):].split(":")
+        elif it.startswith("ROOT_PREFIX="): root = it[len("ROOT_PREFIX="):]
+        else: unknown = True; break
+    optstr = ";".join(items)
+    carr = lambda l: "{%s}" % ",".join(['"%s"' % x for x in l] + ["0"])
+    hdr = '#define OPTSTRING "%s"\n#define EXPECT_UNKNOWN %d\n#define EXP_JOIN %d\n#define EXP_PYTHON %d\nstatic const char *const EXP_PARSE[] = %s;\n#define EXP_NPARSE %d\nstatic const char *const EXP_CONF[] = %s;\n#define EXP_NCONF %d\n#define EXP_ROOT %s\n' % (
+        optstr, 1 if unknown else 0, join, py, carr(parse), len(parse), carr(conf), len(conf), "0" if root is None else '"%s"' % root)
+    cap = max(len(optstr) + 2, 22)
+    name = "opt-" + "".join(c if c.isalnum() else "_" for c in optstr)[:70]
+    return Instance(name, "o_opts.c", {"STRCAP": max(cap, 9), "VCAP": 6, "VFS_MAXNODES": 2}, unwind=max(cap, 9) + 1,
+                    unwindset=lib_unwinds(1, 2) + [(r"libeconf\.c", r"strsep", 7), (r"o_opts\.c", r"i < n", 6), (r"libeconf\.c", r"while \(\*array\)", 7)],
+                    timeout=300, mem_gb=6, leak_check=True, gen_files={"layout.h": hdr}, functions="econf_newKeyFile_with_options, econf_freeFile, econf_freeArray",
+                    bounds="option string %r (concrete); effects, error code and leak freedom checked" % optstr, expect_reach=[])
+
+def c15(tier):
+    seed = int(__import__("os").environ.get("VERIF_SEED", "0") or 0)
+    import random, itertools
+    rng = random.Random(1500 + seed)
+    docs = ["JOIN_SAME_ENTRIES=1", "PYTHON_STYLE=1", "PARSING_DIRS=/a", "PARSING_DIRS=/a:/bb:/c", "CONFIG_DIRS=.d", "CONFIG_DIRS=.d:/x.d", "ROOT_PREFIX=/r", "ROOT_PREFIX=/tmp/q"]
+    unk = ["JOIN_SAME_ENTRIES", "JOIN_SAME_ENTRIES=0", "PYTHON_STYLE=2", "PARSING_DIR=/a", "FOO=1", "join_same_entries=1"]
+    insts = []
+    combos = [[d] for d in docs] + [[u] for u in unk]
+    combos += [["PARSING_DIRS=/a", "PARSING_DIRS=/bb:/c"], ["CONFIG_DIRS=.d:/x.d", "CONFIG_DIRS=.e"], ["ROOT_PREFIX=/r", "ROOT_PREFIX=/tmp/q"], ["JOIN_SAME_ENTRIES=1", "JOIN_SAME_ENTRIES=1"],
+               ["PARSING_DIRS=/a:/bb:/c", "JOIN_SAME_ENTRIES=1", "PARSING_DIRS=/a"], ["JOIN_SAME_ENTRIES=1", "FOO=1"], ["FOO=1", "PYTHON_STYLE=1"], ["PARSING_DIRS=/a", "", "PYTHON_STYLE=1"]]
+    for _ in range(8 if tier == "quick" else 60):
+        k = rng.choice([2, 3, 4])
+        combos.append([rng.choice(docs + (unk if rng.random() < 0.25 else [])) for _ in range(k)])
+    if tier == "thorough":
+        combos += [list(p) for p in itertools.permutations(docs[:7:2], 3)]
+    seen = set()
+    for c in combos:
+        if ";".join(c) in seen or len(";".join(c)) > (38 if tier == "quick" else 46): continue
+        seen.add(";".join(c)); insts.append(opt_inst(c))
+    # JOIN_SAME_ENTRIES on objects, PYTHON_STYLE through the parser
+    insts += join_insts(tier)
+    insts += conv_family(tier, seed, python=True, sysl=False, per_class=4 if tier == "quick" else 16, tag="py", defs=("CHECK_KEYS",), delims=["eq", "sp"] if tier == "quick" else ["eq", "coleq", "sp", "sptab"],
+                         comments=["hash"] if tier == "quick" else None, nlines=(2, 3), maxlen=20 if tier == "quick" else 30, kinds=["entry", "entry", "cont", "cont", "blank", "section"])
+    return {"instances": insts, "assumptions": COMMON_ASSUME + ["option strings are concrete per instance (fixed list + VERIF_SEED sample; permutations in thorough)",
+            "JOIN_SAME_ENTRIES: the pairwise pass runs on objects with a concrete (section,key) pattern and a concrete pattern of empty definitions; value characters symbolic",
+            "PYTHON_STYLE: generated layouts with indented lines that may contain the delimiter and comment characters (characters symbolic)"],
+            "explanation": "option tokenizer effects/last-occurrence/unknown items, join pass against the reference of DESIGN.md 5.2, python-style parsing"}
+
+def join_insts(tier):
+    import itertools
+    insts = []
+    pats = ["aa", "aaa", "aba", "aab", "abab", "aaaa"] if tier == "quick" else ["".join(p) for n in (2, 3, 4) for p in itertools.product("ab", repeat=n)]
+    for pat in pats:
+        n = len(pat)
+        empties = [e for e in itertools.product("01", repeat=n)]
+        if tier == "quick": empties = [e for e in empties if sum(c == "1" for c in e) <= 1][:4]
+        for em in empties:
+            ems = "".join(em)
+            d = {"STRCAP": 4 * n + 6, "VCAP": n + 2, "NENT": n, "KPAT": '"%s"' % pat, "EPAT": '"%s"' % ems, "VFS_MAXNODES": 2}
+            inst = Instance("join-%s-e%s" % (pat, ems), "j_join.c", d, unwind=4 * n + 7, unwindset=lib_unwinds(n, 3) + [(r"j_join\.c", r"i < NENT|j < NENT|p < ", n + 2), (r"libeconf_ext\.c", r"strsep", n + 3), (r"builtin-library-strncpy", r"", 18)],
+                            timeout=400, mem_gb=6, leak_check=True, functions="join_same_entries, econf_getStringValue, econf_getExtValue, econf_freeFile",
+                            bounds="entries with keys %s (same section), definitions marked 1 in %s are empty, the others one symbolic non-blank character" % (pat, ems), expect_reach=["end"])
+            insts.append(inst)
+    return insts
+
 def c13(tier):
     seed = int(__import__("os").environ.get("VERIF_SEED", "0") or 0)
     insts = conv_family(tier, seed, err=True, sysl=False, per_class=3 if tier == "quick" else 14, tag="err", defs=(), delims=["eq", "coleq", "sp", "speq"] if tier == "quick" else None,
@@ -628,7 +694,7 @@ def c20(tier):
             "uninitialised reads: fresh heap memory has arbitrary contents in CBMC, so a read of a never-written field makes the harness assertions on it fail"],
             "explanation": "every early-return path of the layered read with a failure injected at a chosen consulted file, plus API histories, under CBMC's leak / double-free / use-after-free checks"}
 
-REGISTRY = {"C07": c07, "C05": c05, "C17": c17, "C06": c06, "C12": c12, "C13": c13, "C16": c16, "C20": c20, "C01": c01, "C02": c02, "C10": c10, "C11": c11, "C03": c03, "C04": c04, "C08": c08, "C09": c09}
+REGISTRY = {"C15": c15, "C07": c07, "C05": c05, "C17": c17, "C06": c06, "C12": c12, "C13": c13, "C16": c16, "C20": c20, "C01": c01, "C02": c02, "C10": c10, "C11": c11, "C03": c03, "C04": c04, "C08": c08, "C09": c09}
 
 def get(prop, tier):
     if prop not in REGISTRY:
